@@ -253,6 +253,11 @@ func (w *world) dataMut(m Mut) map[string][]byte {
 		}
 	case "dgarbage":
 		st[name] = garbage(len(d), uint64(m.Off)+9)
+	case "dgrow":
+		// garbage that is longer than the original (a rewrite has to truncate)
+		st[name] = garbage(len(d)+m.Off, uint64(m.Off)+11)
+	case "dappend":
+		st[name] = append(append([]byte{}, d...), garbage(m.Off, uint64(m.Off)+13)...)
 	case "dempty":
 		st[name] = []byte{}
 	case "ddelete":
@@ -590,10 +595,13 @@ func (w *world) enumerate(thorough bool) []Mut {
 		for k := 0; k < 24; k++ {
 			ms = append(ms, Mut{Op: "dflip", File: fi, Off: (k*L)/24 + k, Bit: k})
 		}
-		for _, o := range []int{16383, 16384, L - 1} {
+		for _, o := range []int{16383, 16384, 16385, 17000, L - 2, L - 1} {
 			ms = append(ms, Mut{Op: "dflip", File: fi, Off: o, Bit: 3})
 		}
 		ms = append(ms, Mut{Op: "dgarbage", File: fi, Off: 1}, Mut{Op: "dempty", File: fi}, Mut{Op: "ddelete", File: fi})
+		for _, g := range []int{1, 2, S, 120, 1000} {
+			ms = append(ms, Mut{Op: "dgrow", File: fi, Off: g}, Mut{Op: "dappend", File: fi, Off: g})
+		}
 	}
 	return ms
 }
@@ -631,7 +639,7 @@ func mutClass(w *world, m Mut) string {
 			return "flip-par1-header"
 		}
 		return "flip-par1-entry-or-data"
-	case "dtrunc", "dflip", "dgarbage", "dempty", "ddelete":
+	case "dtrunc", "dflip", "dgarbage", "dempty", "ddelete", "dgrow", "dappend":
 		return "data-file-" + m.Op[1:]
 	case "prefix":
 		return "interrupted-create"
@@ -719,6 +727,9 @@ func TestCheck(t *testing.T) {
 	bigBases := []Base{
 		{Format: "par2", Slice: 64, N: 3, Files: []scen.FileSpec{{Name: "a.dat", Size: 16384 + 200, Kind: "random", Seed: 41}, {Name: "sub/b.bin", Size: 100, Kind: "random", Seed: 42}}},
 		{Format: "par1", N: 2, Files: []scen.FileSpec{{Name: "a.dat", Size: 16384 + 200, Kind: "random", Seed: 43}, {Name: "b.bin", Size: 50, Kind: "random", Seed: 44}}},
+		// whole-file duplicates above 16 KiB (same content under two protected names) plus a file of exactly 16384 bytes
+		{Format: "par2", Slice: 1000, N: 3, Files: []scen.FileSpec{{Name: "a.dat", Size: 20000, Kind: "random", Seed: 45}, {Name: "copy of a.dat", Size: 20000, Kind: "random", Seed: 45}, {Name: "x16k", Size: 16384, Kind: "random", Seed: 46}}},
+		{Format: "par1", N: 2, Files: []scen.FileSpec{{Name: "a.dat", Size: 20000, Kind: "random", Seed: 47}, {Name: "copy of a.dat", Size: 20000, Kind: "random", Seed: 47}, {Name: "x16k", Size: 16384, Kind: "random", Seed: 48}}},
 	}
 	for i, b := range bigBases {
 		if !runBase(b, 1000+i) {
